@@ -261,7 +261,10 @@ class Merger(object):
         for fn in template_data:
             arrays = _load_multiple_files(fn, self.subdirs)
             # For ind arrays, we need to take into account the channel offset.
-            for array, offset in zip(arrays, self.channel_index_offsets):
+            # pc_feature_ind holds channel indices, template_feature_ind holds template indices.
+            offsets = (self.channel_index_offsets if fn == 'pc_feature_ind.npy'
+                       else self.template_offsets)
+            for array, offset in zip(arrays, offsets):
                 array += offset
             concat = _concat(arrays, axis=0).astype(np.uint32)
             self._save(fn, concat)
